@@ -814,6 +814,17 @@ func (env *SpecEnv) callExpr(x *ast.CallExpr) Value {
 		a, b := env.eval(x.Args[0]).(SliceVal), env.eval(x.Args[1]).(SliceVal)
 		s, known := samePtr(a.Base, b.Base)
 		if !known || !s {
+			// a slice that was havoced (loop-modified variable, location assigned by a summarised call) may or may not
+			// still be the other slice: the answer is unknown, NOT false (false would silently drop the disjuncts of an
+			// assumed invariant that mention it)
+			havoced := func(p PtrVal) bool {
+				p = fx.materialise(p)
+				return p.Obj != nil && (strings.HasPrefix(p.Obj.Name, "hv.") || strings.HasPrefix(p.Obj.Name, "phi.") || strings.HasPrefix(p.Obj.Name, "post.") || strings.HasPrefix(p.Obj.Name, "join."))
+			}
+			if havoced(a.Base) || havoced(b.Base) {
+				fx.warn("sameSlice over a havoced slice is unknown (state such facts over lengths and elements)")
+				return fx.FreshSym("sameSlice.unknown", SBool)
+			}
 			return And(StructEq(env.st.baseArr(a.Base).Arr, env.st.baseArr(b.Base).Arr), Eq(a.Off, b.Off), Eq(a.Len, b.Len), False())
 		}
 		return And(Eq(a.Off, b.Off), Eq(a.Len, b.Len))
